@@ -203,6 +203,16 @@ func (l *lane) runScCli(tc *tcase, c *acase, out emitter) {
 	if state == "returned" {
 		r.Detail = res.Err
 	}
+	// MeasureClockOffsetSCION gives up at its deadline even when the goroutine in the receive path never
+	// comes back: a child that keeps burning CPU after the call has returned has a receive loop that
+	// stopped making progress
+	if state == "returned" && !res.Ok && l.cli != nil && !l.cli.exited() &&
+		l.cli.spinning(100*time.Millisecond) && l.cli.spinning(100*time.Millisecond) {
+		dump := l.cli.dumpAndKill()
+		l.cli = nil
+		r.Outcome, r.Sig = "hang", spinSignature(dump)
+		r.Detail = "the call returned at its deadline, the receive path keeps spinning"
+	}
 	if r.Outcome == "served" || r.Outcome == "dropped" {
 		for k := 0; k < 2 && !r.Sentinel; k++ {
 			res2, state2, _, _ := l.scCliOnce(&goodScCli)
